@@ -41,6 +41,7 @@ type Frame struct {
 	inheritedWC []*writeConstraint
 	funcWC    *writeConstraint
 	rangeStart map[*ssa.Range][2]*Term
+	guardTags  map[ssa.Value]*guardTag
 }
 
 type deferRec struct {
@@ -181,7 +182,7 @@ func (fc *FnCtx) newFrame(fn *ssa.Function, parent *Frame, path string) *Frame {
 	fr := &Frame{fc: fc, fn: fn, env: map[ssa.Value]Val{}, path: path, parent: parent,
 		out: map[*ssa.BasicBlock]*State{}, ins: map[*ssa.BasicBlock][]inEdge{}, loopOf: map[*ssa.BasicBlock]*Loop{},
 		nonnil: map[string]*ssa.BasicBlock{}, freeBind: map[*ssa.FreeVar]Val{}, closures: map[ssa.Value]*ssa.MakeClosure{},
-		rangeKeySort: map[ssa.Value]Sort{}, rangeStart: map[*ssa.Range][2]*Term{}}
+		rangeKeySort: map[ssa.Value]Sort{}, rangeStart: map[*ssa.Range][2]*Term{}, guardTags: map[ssa.Value]*guardTag{}}
 	if parent != nil {
 		fr.depth = parent.depth + 1
 	}
@@ -736,19 +737,22 @@ func (fr *Frame) execInstr(in ssa.Instruction, st *State) {
 		fr.typeAssert(in, st)
 	case *ssa.Extract:
 		fr.env[in] = fr.val(in.Tuple).Fs[in.Index]
+		if in.Index == 0 {
+			fr.propagateGuard(in.Tuple, in)
+		}
 	case *ssa.MakeSlice:
 		ln := fr.val(in.Len).T
 		cp := fr.val(in.Cap).T
 		fc.oblige(st, "bounds", fr.path, And(Le(IntLit(0), ln), Le(ln, cp)), fr.pos(in), "make: 0 <= len <= cap")
 		et := in.Type().Underlying().(*types.Slice).Elem()
-		fr.allocCheck(st, in, Mul(cp, IntLit(maxI64(1, ti.sizes.Sizeof(et)))))
+		fr.allocCheck(st, in, cp)
 		fc.assume(st, Le(cp, maxAlloc)) // resource assumption: a successful allocation is < 2^48 elements
 		obj := fr.alloc(st, et)
 		fr.define(in, scalar(MkSlice(obj, IntLit(0), ln, cp)))
 	case *ssa.MakeMap:
 		obj := fr.allocMap(st, in.Type().Underlying().(*types.Map))
 		if in.Reserve != nil {
-			fr.allocCheck(st, in, Mul(fr.val(in.Reserve).T, IntLit(16)))
+			fr.allocCheck(st, in, fr.val(in.Reserve).T)
 		}
 		fr.env[in] = scalar(obj)
 	case *ssa.MakeChan:
